@@ -47,7 +47,11 @@ Proof.
     destruct (negb (estate t0 =? stConnected)); [apply QQ, quiet_refl|].
     destruct (has (s_flags sg) fRst).
     { destruct (acceptable _ _ _); [|apply QQ, tail_quiet].
-      unfold resetConnection. cbn. change (dcount _) with 0. lia. }
+      (* the connection is aborted: nothing of the sender changes, no data frame (by computation,
+         whatever the abort emits) *)
+      match goal with |- cwnd (SN ?r) = _ /\ _ =>
+        assert (RR : SN r = SN t0 /\ dcount (out r) = 0) by (split; reflexivity);
+        destruct RR as (R1 & R2); rewrite R1, R2; change (SN t0) with (SN t); lia end. }
     apply negb_true_iff in NA. rewrite NA. apply QQ, tail_quiet.
   - unfold appWrite.
     destruct (estate t0 =? stError); [apply QQ, quiet_refl|].
@@ -702,10 +706,11 @@ Proof.
     rewrite E1, E2 in AP. specialize (AP EI).
     set (t4 := ackPart t s3 sg newRto) in *. clearbody t4.
     destruct AP as (A1 & A2 & A3 & A4 & A5 & A6 & A7 & A8 & A9 & A10 & _ & A12).
-    specialize (A12 E5 ltac:(lia) ltac:(lia) ltac:(lia)). rewrite E3, E4, E7, E9 in A12.
-    repeat split; try congruence; lia.
+    specialize (A12 E5 ltac:(clear - E7 SS; lia) ltac:(clear - E9 CA; lia) ltac:(clear - E8 SS; lia)).
+    rewrite E3, E4, E7, E9 in A12.
+    split; [congruence|]. split; [congruence|]. split; [congruence|]. clear - A12. lia.
   - rewrite ackPart_noadv by (rewrite E1, E2; exact EI). cbn [SN set].
-    repeat split; try congruence; lia.
+    split; [congruence|]. split; [congruence|]. split; [congruence|]. rewrite E7. clear - D0. lia.
 Qed.
 
 (* recovery ends on the first ACK beyond fr.last: cwnd deflates to ssthresh (then grows by the
@@ -732,7 +737,9 @@ Proof.
   destruct (tail_quiet t6) as (TC & _).
   match goal with |- context [loopExit ?x] => set (t7 := loopExit x) in * end. clearbody t7.
   loopfT LF. coref TC.
-  repeat split; try congruence; lia.
+  assert (CW : cwnd (SN t7) = cwnd (SN t5)) by congruence.
+  split; [congruence|]. split; [congruence|]. split; [congruence|].
+  rewrite CW. clear - P4. lia.
 Qed.
 
 (* fast_retransmit_does_not_rearm (documents finding F11).  The model's timer has no clock: a
